@@ -106,6 +106,9 @@ func (f *Frame) execInstr(b *ssa.BasicBlock, in ssa.Instruction, o *blockOut) bo
 	vc := f.vc
 	st := o.st
 	g := o.guard
+	if f.depth == 0 {
+		vc.curFrame, vc.curInstr, vc.curState = f, in, st
+	}
 	switch x := in.(type) {
 	case *ssa.DebugRef:
 		return false
@@ -172,8 +175,12 @@ func (f *Frame) execInstr(b *ssa.BasicBlock, in ssa.Instruction, o *blockOut) bo
 	case *ssa.MakeSlice:
 		ln := f.val(x.Len)
 		cp := f.val(x.Cap)
-		f.safety("makeslice", x, And(Le(IntLit(0), ln.T), Le(ln.T, cp.T), Le(cp.T, BigLit("140737488355328"))), g, "make([]T, len, cap): 0 <= len <= cap <= 2^47")
 		et := x.Type().Underlying().(*types.Slice).Elem()
+		esz := types.SizesFor("gc", "amd64").Sizeof(et)
+		if esz < 1 {
+			esz = 1
+		}
+		f.safety("makeslice", x, And(Le(IntLit(0), ln.T), Le(ln.T, cp.T), Le(Mul(cp.T, IntLit(esz)), BigLit("140737488355328"))), g, "make([]T, len, cap): 0 <= len <= cap and cap*sizeof(T) <= 2^47 (runtime panics otherwise)")
 		arr := vc.newRef("mkslice")
 		vc.zeroElems(st, arr, et)
 		f.env[x] = Val{K: KSlice, T: arr, Off: IntLit(0), Len: ln.T, Cap: cp.T, Typ: x.Type()}
@@ -490,11 +497,19 @@ func (f *Frame) binop(x *ssa.BinOp, g Term) Val {
 	case token.QUO:
 		f.safety("div", x, Ne(b.T, IntLit(0)), g, "integer division by zero")
 		q := truncDiv(a.T, b.T)
-		return f.named(x, Val{K: KInt, T: wrapTerm(q, t), Typ: t})
+		// the only quotient outside the type's range is MinInt / -1
+		bits, signed := intBits(t)
+		if signed && bits > 0 {
+			h := BigLit(pow2[bits-1])
+			q = Ite(Eq(q, h), App(SInt, "-", h), q)
+		}
+		return f.named(x, Val{K: KInt, T: q, Typ: t})
 	case token.REM:
 		f.safety("div", x, Ne(b.T, IntLit(0)), g, "integer remainder by zero")
 		q := truncDiv(a.T, b.T)
-		return f.named(x, Val{K: KInt, T: Sub(a.T, Mul(b.T, q)), Typ: t})
+		// for a >= 0, b > 0 Go's remainder is the SMT-LIB mod (keeps the term linear-friendly)
+		r := Ite(And(Ge(a.T, IntLit(0)), Gt(b.T, IntLit(0))), App(SInt, "mod", a.T, b.T), Sub(a.T, Mul(b.T, q)))
+		return f.named(x, Val{K: KInt, T: r, Typ: t})
 	case token.AND:
 		if c, ok := litValue(b.T); ok {
 			if r, ok := andConst(a.T, c, t); ok {
